@@ -60,6 +60,10 @@ def main():
     sh("git checkout -- . && rm -f tests/seeded_demo.rs && rm -rf target", cwd=wt)
     results = {}
     if ok:
+        # evidence/ is rewritten by every ./check run: keep the files of the clean tree
+        ev, bak = os.path.join(ROOT, "evidence"), os.path.join(ROOT, ".build", "evidence.keep")
+        shutil.rmtree(bak, ignore_errors=True)
+        shutil.copytree(ev, bak)
         rc, out = sh(f"git -C /repo apply {patch}")
         if rc != 0:
             print("patch does not apply to /repo HEAD:", out[-300:])
@@ -79,6 +83,8 @@ def main():
                             results[p]["oracle"] = rp.get("oracle", [])[:1]
             finally:
                 sh("git -C /repo checkout -- .")
+                shutil.rmtree(ev, ignore_errors=True)
+                shutil.copytree(bak, ev)
     st = subprocess.run("git -C /repo status --short", shell=True, capture_output=True, text=True).stdout
     assert st.strip() == "", "repo not clean: " + st
     out_dir = os.path.join(ROOT, "seeded", name)
